@@ -241,7 +241,7 @@ type EvPlan struct {
 const watchdog = 100 * time.Second
 
 func (c *ProcCase) Prepare() error {
-	defs, err := schema.Parse([]byte(c.Prog.Defs.XML()))
+	defs, err := parseDefs(c.Prog.Defs.XML())
 	if err != nil {
 		return fmt.Errorf("schema.Parse: %w", err)
 	}
